@@ -88,8 +88,9 @@ def context_obs(objs, props, rows, unions=True):
                           [y.index for y in lat.downset_union(members)]))
         add('join-meet', [(lat.join([members[i], members[j]]).index,
                            lat.meet([members[i], members[j]]).index) for i, j in pairs])
-        add('generalization', [[y.index for y in lat.upset_generalization([members[i], members[j]])]
-                               for i, j in pairs[:12]])
+        if hasattr(lat, 'upset_generalization'):     # documented as experimental
+            add('generalization', exc(lambda: [[y.index for y in lat.upset_generalization(
+                [members[i], members[j]])] for i, j in pairs[:12]]))
     # reload paths
     d = c.todict()
     c2 = concepts.Context.fromdict(d)
